@@ -690,15 +690,17 @@ End Norm.
 (* C14_accept_iff                                                      *)
 (* ================================================================== *)
 
-Theorem accept_iff : forall d, cfg_free d -> (name_ref_check d = false <-> C14_spec_reject d).
+(* the naming clauses: the whole decision before the repair of D11; the current one is [accept_iff] below *)
+Theorem accept_iff_before_d11_repair : forall d, cfg_free d ->
+  (name_ref_check_before_d11_repair d = false <-> C14_spec_reject_names d).
 Proof.
-  intros d Hf. unfold cfg_free in Hf. unfold C14_spec_reject, spec_reject.
+  intros d Hf. unfold cfg_free in Hf. unfold C14_spec_reject_names, spec_reject.
   set (bs := dev_boundaries d) in *. set (os := preorder_objects (d_objects d)) in *.
   assert (Hpre : preorder_objects (d_objects (names_normalized d)) = map (norm_object bs) os).
   { unfold names_normalized. cbn. apply preorder_norm. }
   rewrite <- (clause_object bs os Hf), <- (clause_field bs os), <- (clause_enum bs os Hf),
           <- (clause_variant bs os Hf), <- (clause_ref bs os).
-  unfold name_ref_check.
+  unfold name_ref_check_before_d11_repair.
   pose proof (names_unique_spec (names_normalized d)) as HU. rewrite Hpre in HU.
   pose proof (refs_validated_ok_false (names_normalized d)) as HR. rewrite Hpre in HR.
   unfold uniqueb in HU.
@@ -1422,13 +1424,30 @@ Proof.
   rewrite map_map. apply map_ext_in. intros o Ho. unfold object_uid. rewrite (Hc o Ho). reflexivity.
 Qed.
 
+Lemma name_ref_check_before_true d :
+  name_ref_check_before_d11_repair d = true <->
+  names_unique (names_normalized d) = None /\ refs_validated_ok (names_normalized d) = true.
+Proof.
+  unfold name_ref_check_before_d11_repair. destruct (names_unique (names_normalized d)).
+  - split; [discriminate|intros [H _]; discriminate].
+  - split; [auto|intros [_ H]; exact H].
+Qed.
+
 Lemma name_ref_check_true d :
   name_ref_check d = true <->
-  names_unique (names_normalized d) = None /\ refs_validated_ok (names_normalized d) = true.
+  names_unique (names_normalized d) = None /\ refs_validated_ok (names_normalized d) = true /\
+  no_recursive_block_refs (names_normalized d) = true.
 Proof.
   unfold name_ref_check. destruct (names_unique (names_normalized d)).
   - split; [discriminate|intros [H _]; discriminate].
-  - split; [auto|intros [_ H]; exact H].
+  - rewrite andb_true_iff. split; [auto|intros [_ H]; exact H].
+Qed.
+
+(* the current check only adds a rejection *)
+Lemma name_ref_check_weaker d :
+  name_ref_check d = true -> name_ref_check_before_d11_repair d = true.
+Proof.
+  intros H. apply name_ref_check_true in H. apply name_ref_check_before_true. tauto.
 Qed.
 
 Lemma accepted_nodup_names d : cfg_free d -> names_unique (names_normalized d) = None ->
@@ -1455,7 +1474,7 @@ Theorem accepted_refs_resolve : forall d, cfg_free d -> name_ref_check d = true 
             In o (preorder_objects (d_objects (names_normalized d))) /\
             object_kind o = override_kind ov /\ object_name o = override_target ov.
 Proof.
-  intros d Hf Hc c n ov Hin. apply name_ref_check_true in Hc. destruct Hc as [Hu Hr].
+  intros d Hf Hc c n ov Hin. apply name_ref_check_true in Hc. destruct Hc as (Hu & Hr & _).
   apply refs_validated_ok_true in Hr. pose proof (accepted_nodup_names d Hf Hu) as Hnd.
   destruct (Hr c n ov Hin) as (o & Ho & Hk & Hn). exists o. repeat split; try assumption.
   rewrite <- Hn. apply search_finds_declared; assumption.
@@ -1465,7 +1484,7 @@ Theorem accepted_lowering_iff_acyclic : forall d, cfg_free d -> name_ref_check d
   (lowering_terminates (d_objects (names_normalized d)) <-> acyclic (d_objects (names_normalized d))).
 Proof.
   intros d Hf Hc. apply lowering_terminates_iff_acyclic.
-  apply name_ref_check_true in Hc. destruct Hc as [Hu Hr].
+  apply name_ref_check_true in Hc. destruct Hc as (Hu & Hr & _).
   apply refs_ok_resolve; [apply accepted_nodup_names; assumption|apply refs_validated_ok_true; assumption].
 Qed.
 
@@ -1519,4 +1538,608 @@ Theorem front_manifest_spec : forall s, front_manifest s = None <-> shape_ok_man
 Proof.
   intros s. unfold front_manifest, shape_ok_manifest. destruct (os_kind s);
     try apply first_unexpected_none; split; [discriminate|contradiction|discriminate|contradiction].
+Qed.
+
+Open Scope string_scope.
+
+(* ================================================================== *)
+(* ensure_no_recursive_block_refs (repair of D11)                      *)
+(* ================================================================== *)
+
+(* ---------- reaches ---------- *)
+
+Lemma reaches_one (R : string -> string -> Prop) a b : R a b -> reaches R a b.
+Proof. intros H. eapply reaches_step; [exact H|apply reaches_refl]. Qed.
+
+Lemma reaches_trans (R : string -> string -> Prop) a b c : reaches R a b -> reaches R b c -> reaches R a c.
+Proof. induction 1; intros H2; [assumption|]. eapply reaches_step; eauto. Qed.
+
+Lemma reaches_snoc (R : string -> string -> Prop) a b c : reaches R a b -> R b c -> reaches R a c.
+Proof. intros H1 H2. eapply reaches_trans; [exact H1|apply reaches_one; exact H2]. Qed.
+
+Lemma reaches_ext (R R' : string -> string -> Prop) :
+  (forall a b, R a b -> R' a b) -> forall a b, reaches R a b -> reaches R' a b.
+Proof. intros H a b. induction 1; [apply reaches_refl|]. eapply reaches_step; eauto. Qed.
+
+(* a set that contains a, and every R-successor of its members, contains everything a reaches *)
+Lemma reaches_closed (R : string -> string -> Prop) (S : string -> Prop) :
+  (forall x y, S x -> R x y -> S y) -> forall a b, reaches R a b -> S a -> S b.
+Proof. intros Hc a b. induction 1; intros Ha; [assumption|]. apply IHreaches. eapply Hc; eauto. Qed.
+
+(* ---------- the worklist ---------- *)
+
+Section Walk.
+  Context (succ : string -> list string).
+  Let R (a b : string) : Prop := In b (succ a).
+
+  Lemma mem_str_in x l : mem_str x l = true <-> In x l.
+  Proof. rewrite mem_str_memb. apply (memb_in String.eqb str_eqb_spec). Qed.
+
+  (* soundness: whatever is popped is reachable from the start *)
+  Lemma rec_walk_sound t p : forall fuel seen todo,
+    (forall x, In x todo -> reaches R t x) ->
+    rec_walk fuel succ p seen todo = Ok true -> reaches R t p.
+  Proof.
+    induction fuel as [|f IH]; intros seen todo Htodo H; [discriminate|].
+    cbn [rec_walk] in H. destruct todo as [|b rest]; [discriminate|].
+    destruct (String.eqb b p) eqn:Eb.
+    - apply String.eqb_eq in Eb. subst. apply Htodo. left. reflexivity.
+    - destruct (mem_str b seen).
+      + eapply IH; [|exact H]. intros x Hx. apply Htodo. right. assumption.
+      + eapply IH; [|exact H]. intros x Hx. apply in_app_or in Hx. destruct Hx as [Hx|Hx].
+        * apply in_rev in Hx. eapply reaches_snoc; [apply Htodo; left; reflexivity|exact Hx].
+        * apply Htodo. right. assumption.
+  Qed.
+
+  (* completeness: when the walk ends without a hit, [seen] has grown into a successor-closed set that contains
+     the whole stack and not the enclosing block *)
+  Definition walk_inv (p : string) (seen todo : list string) : Prop :=
+    (forall s q, In s seen -> R s q -> In q seen \/ In q todo) /\ ~ In p seen.
+
+  Lemma rec_walk_false p : forall fuel seen todo,
+    walk_inv p seen todo -> rec_walk fuel succ p seen todo = Ok false ->
+    exists final, (forall x y, In x final -> R x y -> In y final) /\ ~ In p final /\
+                  incl seen final /\ incl todo final.
+  Proof.
+    induction fuel as [|f IH]; intros seen todo [Hcl Hp] H; [discriminate|].
+    cbn [rec_walk] in H. destruct todo as [|b rest].
+    - exists seen. repeat split.
+      + intros x y Hx Hxy. destruct (Hcl x y Hx Hxy) as [Hy|[]]. assumption.
+      + assumption.
+      + apply incl_refl.
+      + intros x [].
+    - destruct (String.eqb b p) eqn:Eb; [discriminate|]. apply String.eqb_neq in Eb.
+      destruct (mem_str b seen) eqn:Em.
+      + apply mem_str_in in Em.
+        destruct (IH seen rest) as (final & Hf1 & Hf2 & Hf3 & Hf4); [|exact H|].
+        * split; [|assumption]. intros s q Hs Hsq. destruct (Hcl s q Hs Hsq) as [Hq|[<-|Hq]]; auto.
+        * exists final. repeat split; try assumption.
+          intros x [<-|Hx]; [apply Hf3; assumption|apply Hf4; assumption].
+      + destruct (IH (b :: seen) (rev (succ b) ++ rest)%list) as (final & Hf1 & Hf2 & Hf3 & Hf4); [|exact H|].
+        * split.
+          -- intros s q [<-|Hs] Hsq.
+             ++ right. apply in_or_app. left. apply -> in_rev. exact Hsq.
+             ++ destruct (Hcl s q Hs Hsq) as [Hq|[<-|Hq]].
+                ** left. right. assumption.
+                ** left. left. reflexivity.
+                ** right. apply in_or_app. right. assumption.
+          -- intros [E|Hin]; [apply Eb; assumption|contradiction].
+        * exists final. repeat split; try assumption.
+          -- intros x Hx. apply Hf3. right. assumption.
+          -- intros x [<-|Hx]; [apply Hf3; left; reflexivity|]. apply Hf4. apply in_or_app. right. assumption.
+  Qed.
+
+  Lemma rec_walk_complete t p fuel :
+    rec_walk fuel succ p [] [t] = Ok false -> ~ reaches R t p.
+  Proof.
+    intros H Hr. destruct (rec_walk_false p fuel [] [t]) as (final & Hcl & Hp & _ & Ht); [|exact H|].
+    - split; [intros s q []|intros []].
+    - apply Hp. apply (reaches_closed R (fun x => In x final) Hcl t p Hr). apply Ht. left. reflexivity.
+  Qed.
+End Walk.
+
+(* ---------- the fuel never runs out ---------- *)
+
+Section WalkFuel.
+  Context (E : list (string * string)).
+
+  Definition unseen_edges (seen : list string) : list (string * string) :=
+    filter (fun e => negb (mem_str (fst e) seen)) E.
+
+  Lemma inst_of_length b : List.length (inst_of E b) = List.length (filter (fun e => String.eqb (fst e) b) E).
+  Proof. unfold inst_of. apply map_length. Qed.
+
+  Lemma unseen_split b seen : mem_str b seen = false ->
+    (List.length (filter (fun e => String.eqb (fst e) b) E) + List.length (unseen_edges (b :: seen)) =
+     List.length (unseen_edges seen))%nat.
+  Proof.
+    intros Hb. unfold unseen_edges. induction E as [|e t IH]; [reflexivity|].
+    cbn [filter].
+    assert (Hm : mem_str (fst e) (b :: seen) = String.eqb (fst e) b || mem_str (fst e) seen) by reflexivity.
+    rewrite Hm. destruct (String.eqb (fst e) b) eqn:Ee.
+    - assert (Hs : mem_str (fst e) seen = false) by (apply String.eqb_eq in Ee; rewrite Ee; exact Hb).
+      rewrite Hs. cbn [orb negb List.length]. lia.
+    - cbn [orb]. destruct (negb (mem_str (fst e) seen)); cbn [List.length]; lia.
+  Qed.
+
+  Lemma rec_walk_fuel p : forall fuel seen todo,
+    (List.length todo + List.length (unseen_edges seen) < fuel)%nat ->
+    exists b, rec_walk fuel (inst_of E) p seen todo = Ok b.
+  Proof.
+    induction fuel as [|f IH]; intros seen todo Hlt; [lia|].
+    cbn [rec_walk]. destruct todo as [|b rest]; [eauto|].
+    destruct (String.eqb b p); [eauto|].
+    destruct (mem_str b seen) eqn:Em.
+    - apply IH. cbn [List.length] in Hlt. lia.
+    - apply IH. rewrite app_length, rev_length, inst_of_length.
+      pose proof (unseen_split b seen Em). cbn [List.length] in Hlt. lia.
+  Qed.
+
+  Lemma rec_walk_total p t : exists b, rec_walk (recursive_fuel E) (inst_of E) p [] [t] = Ok b.
+  Proof.
+    apply rec_walk_fuel. unfold recursive_fuel, unseen_edges. cbn [List.length].
+    assert (forall (f : string * string -> bool) l, (List.length (filter f l) <= List.length l)%nat) as Hle.
+    { intros f l. induction l as [|x l IH]; cbn; [lia|]. destruct (f x); cbn; lia. }
+    pose proof (Hle (fun e => negb (mem_str (fst e) [])) E). lia.
+  Qed.
+End WalkFuel.
+
+(* ---------- edges / sites = the relations of the specification ---------- *)
+
+Lemma child_inst_spec ch q : In q (child_inst ch) <->
+  ((exists c' off' rep' objs', ch = OBlock c' q off' rep' objs') \/
+   (exists c' r a rp, ch = ORef c' r (OvBlock q a rp))).
+Proof.
+  destruct ch as [c n off rep objs|r|cm|b|c n ov]; cbn [child_inst].
+  - split.
+    + intros [<-|[]]. left. eauto.
+    + intros [(c' & off' & rep' & objs' & E)|(c' & r & a & rp & E)]; [|discriminate]. inversion E. left. reflexivity.
+  - split; [intros []|intros [(? & ? & ? & ? & E)|(? & ? & ? & ? & E)]; discriminate].
+  - split; [intros []|intros [(? & ? & ? & ? & E)|(? & ? & ? & ? & E)]; discriminate].
+  - split; [intros []|intros [(? & ? & ? & ? & E)|(? & ? & ? & ? & E)]; discriminate].
+  - destruct ov as [t a rp|t acc a al rs rp|t a al rp].
+    + split.
+      * intros [<-|[]]. right. eauto.
+      * intros [(? & ? & ? & ? & E)|(c' & r & a' & rp' & E)]; [discriminate|]. inversion E. left. reflexivity.
+    + split; [intros []|intros [(? & ? & ? & ? & E)|(? & ? & ? & ? & E)]; discriminate].
+    + split; [intros []|intros [(? & ? & ? & ? & E)|(? & ? & ? & ? & E)]; discriminate].
+Qed.
+
+Lemma inst_edges_spec os p q : In (p, q) (inst_edges os) <-> instantiates os p q.
+Proof.
+  unfold inst_edges, instantiates. rewrite in_flat_map. split.
+  - intros (o & Ho & Hin). destruct o as [c n off rep objs|r|cm|b|c n ov]; try contradiction.
+    apply in_map_iff in Hin. destruct Hin as (q' & E & Hq). inversion E; subst.
+    apply in_flat_map in Hq. destruct Hq as (ch & Hch & Hq). apply child_inst_spec in Hq.
+    exists c, off, rep, objs, ch. auto.
+  - intros (c & off & rep & objs & ch & Hb & Hch & Hq). exists (OBlock c p off rep objs). split; [assumption|].
+    apply in_map. apply in_flat_map. exists ch. split; [assumption|apply child_inst_spec; assumption].
+Qed.
+
+Lemma inst_of_spec E b q : In q (inst_of E b) <-> In (b, q) E.
+Proof.
+  unfold inst_of. rewrite in_map_iff. split.
+  - intros ([x y] & E1 & Hin). apply filter_In in Hin. destruct Hin as [Hin Hb]. cbn in *.
+    apply String.eqb_eq in Hb. subst. assumption.
+  - intros H. exists (b, q). split; [reflexivity|]. apply filter_In. split; [assumption|]. cbn. apply String.eqb_refl.
+Qed.
+
+Lemma reaches_inst_of os t p :
+  reaches (fun a b => In b (inst_of (inst_edges os) a)) t p <-> reaches (instantiates os) t p.
+Proof.
+  split; apply reaches_ext; intros a b H.
+  - apply inst_edges_spec, inst_of_spec. exact H.
+  - apply inst_of_spec, inst_edges_spec. exact H.
+Qed.
+
+Lemma block_ref_sites_spec os r p t : In (r, p, t) (block_ref_sites os) <->
+  exists c off rep objs cr a rp, In (OBlock c p off rep objs) os /\ In (ORef cr r (OvBlock t a rp)) objs.
+Proof.
+  unfold block_ref_sites. rewrite in_flat_map. split.
+  - intros (o & Ho & Hin). destruct o as [c n off rep objs|rg|cm|b|c n ov]; try contradiction.
+    apply in_flat_map in Hin. destruct Hin as (ch & Hch & Hin).
+    destruct ch as [c1 n1 off1 rep1 objs1|rg|cm|b|c1 n1 ov1]; try contradiction.
+    destruct ov1 as [t1 a1 rp1|t1 acc a1 al rs rp1|t1 a1 al rp1]; try contradiction.
+    cbn in Hin. destruct Hin as [E|[]]. inversion E; subst. exists c, off, rep, objs, c1, a1, rp1. auto.
+  - intros (c & off & rep & objs & cr & a & rp & Hb & Hr). exists (OBlock c p off rep objs). split; [assumption|].
+    apply in_flat_map. exists (ORef cr r (OvBlock t a rp)). split; [assumption|]. left. reflexivity.
+Qed.
+
+(* ---------- the pass ---------- *)
+
+Lemma walk_true_iff os p t :
+  rec_walk (recursive_fuel (inst_edges os)) (inst_of (inst_edges os)) p [] [t] = Ok true <->
+  reaches (instantiates os) t p.
+Proof.
+  split.
+  - intros H. apply reaches_inst_of. eapply rec_walk_sound; [|exact H].
+    intros x [<-|[]]. apply reaches_refl.
+  - intros Hr. destruct (rec_walk_total (inst_edges os) p t) as ([|] & Hb); [assumption|].
+    exfalso. eapply rec_walk_complete; [exact Hb|]. apply reaches_inst_of. exact Hr.
+Qed.
+
+Lemma walk_false_iff os p t :
+  rec_walk (recursive_fuel (inst_edges os)) (inst_of (inst_edges os)) p [] [t] = Ok false <->
+  ~ reaches (instantiates os) t p.
+Proof.
+  rewrite <- walk_true_iff. destruct (rec_walk_total (inst_edges os) p t) as ([|] & ->); split; congruence.
+Qed.
+
+Lemma first_recursive_spec os : forall sites,
+  (first_recursive (recursive_fuel (inst_edges os)) (inst_edges os) sites = Ok None /\
+   forall r p t, In (r, p, t) sites -> ~ reaches (instantiates os) t p) \/
+  (exists r p t, In (r, p, t) sites /\ reaches (instantiates os) t p /\
+     first_recursive (recursive_fuel (inst_edges os)) (inst_edges os) sites = Ok (Some (mk_err "ref_recursive" [r; t]))).
+Proof.
+  induction sites as [|[[r p] t] rest IH]; [left; split; [reflexivity|intros ? ? ? []]|].
+  cbn [first_recursive].
+  destruct (rec_walk_total (inst_edges os) p t) as ([|] & Hb); rewrite Hb; cbn [bind].
+  - right. exists r, p, t. split; [left; reflexivity|]. split; [apply walk_true_iff; assumption|reflexivity].
+  - apply walk_false_iff in Hb. destruct IH as [[H1 H2]|(r' & p' & t' & Hin & Hr & H)].
+    + left. split; [assumption|]. intros r' p' t' [E|Hin]; [inversion E; subst; assumption|eauto].
+    + right. exists r', p', t'. split; [right; assumption|auto].
+Qed.
+
+Lemma recursive_site_iff os r p t :
+  recursive_site os r p t <-> In (r, p, t) (block_ref_sites os) /\ reaches (instantiates os) t p.
+Proof. unfold recursive_site. rewrite block_ref_sites_spec. reflexivity. Qed.
+
+(* the fuel of the model never runs out *)
+Theorem recursive_check_total : forall d, exists v, recursive_block_refs d = Ok v.
+Proof.
+  intros d. unfold recursive_block_refs.
+  destruct (first_recursive_spec (preorder_objects (d_objects d)) (block_ref_sites (preorder_objects (d_objects d))))
+    as [[H _]|(r & p & t & _ & _ & H)]; rewrite H; eauto.
+Qed.
+
+(* whatever it reports is a block ref (name r) that is a direct child of a block p and whose target t gets back to p *)
+Theorem recursive_check_some : forall d e, recursive_block_refs d = Ok (Some e) ->
+  exists r p t, e = mk_err "ref_recursive" [r; t] /\ recursive_site (preorder_objects (d_objects d)) r p t.
+Proof.
+  intros d e. unfold recursive_block_refs.
+  destruct (first_recursive_spec (preorder_objects (d_objects d)) (block_ref_sites (preorder_objects (d_objects d))))
+    as [[H _]|(r & p & t & Hin & Hr & H)]; rewrite H; intros E; [discriminate|].
+  inversion E. exists r, p, t. split; [reflexivity|]. apply recursive_site_iff. auto.
+Qed.
+
+Theorem recursive_check_none : forall d,
+  recursive_block_refs d = Ok None <-> ~ recursive_block_ref (d_objects d).
+Proof.
+  intros d. unfold recursive_block_refs, recursive_block_ref, recursive_in.
+  destruct (first_recursive_spec (preorder_objects (d_objects d)) (block_ref_sites (preorder_objects (d_objects d))))
+    as [[H Hno]|(r & p & t & Hin & Hr & H)]; rewrite H.
+  - split; [intros _|reflexivity]. intros (r & p & t & Hs). apply recursive_site_iff in Hs. destruct Hs as [Hin Hr].
+    exact (Hno r p t Hin Hr).
+  - split; [discriminate|]. intros Hn. exfalso. apply Hn. exists r, p, t. apply recursive_site_iff. auto.
+Qed.
+
+(* the model rejects with ref_recursive exactly the definitions with a recursive block ref *)
+Theorem recursive_check_iff : forall d,
+  (exists r t, recursive_block_refs d = Ok (Some (mk_err "ref_recursive" [r; t]))) <-> recursive_block_ref (d_objects d).
+Proof.
+  intros d. split.
+  - intros (r & t & H). apply recursive_check_some in H. destruct H as (r' & p & t' & _ & Hs). exists r', p, t'. exact Hs.
+  - intros Hr. destruct (recursive_check_total d) as ([e|] & Hv).
+    + destruct (recursive_check_some d e Hv) as (r & p & t & -> & _). eauto.
+    + apply recursive_check_none in Hv. contradiction.
+Qed.
+
+Lemma no_recursive_true d : no_recursive_block_refs d = true <-> ~ recursive_block_ref (d_objects d).
+Proof.
+  rewrite <- recursive_check_none. unfold no_recursive_block_refs.
+  destruct (recursive_block_refs d) as [[e|]|k]; split; congruence.
+Qed.
+
+Lemma no_recursive_false d : no_recursive_block_refs d = false <-> recursive_block_ref (d_objects d).
+Proof.
+  rewrite <- recursive_check_iff. unfold no_recursive_block_refs.
+  destruct (recursive_check_total d) as ([e|] & Hv); rewrite Hv.
+  - split; [intros _|reflexivity]. destruct (recursive_check_some d e Hv) as (r & p & t & -> & _). eauto.
+  - split; [discriminate|intros (r & t & E); discriminate].
+Qed.
+
+(* ---------- a cycle of [nested] is a recursive block ref ---------- *)
+
+Section CycleIsRecursive.
+  Context (dev : list object).
+  Let os := preorder_objects dev.
+
+  (* a strict descendant x of a block n has a parent block p inside that block with n instantiates* p (sub blocks only) *)
+  Lemma descendant_parent : forall o,
+    (forall y, In y (pre o) -> In y os) ->
+    forall c n off rep objs, o = OBlock c n off rep objs ->
+    forall x, In x (flat_map pre objs) ->
+    exists c' p off' rep' objs', In (OBlock c' p off' rep' objs') os /\ In x objs' /\ reaches (instantiates os) n p.
+  Proof.
+    induction o as [c0 n0 off0 rep0 objs0 IH|r|cm|b|c0 n0 ov] using object_ind'; intros Hsub c n off rep objs E x Hx;
+      try discriminate.
+    inversion E; subst c0 n0 off0 rep0 objs0. clear E.
+    apply in_flat_map in Hx. destruct Hx as (ch & Hch & Hx).
+    assert (Hself : In (OBlock c n off rep objs) os) by (apply Hsub; apply pre_self).
+    destruct ch as [c1 n1 off1 rep1 objs1|r|cm|b|c1 n1 ov1];
+      try (cbn in Hx; destruct Hx as [<-|[]]; exists c, n, off, rep, objs; split; [assumption|split; [assumption|apply reaches_refl]]).
+    cbn [pre] in Hx. destruct Hx as [<-|Hx].
+    - exists c, n, off, rep, objs. split; [assumption|split; [assumption|apply reaches_refl]].
+    - rewrite Forall_forall in IH.
+      destruct (IH _ Hch) with (c := c1) (n := n1) (off := off1) (rep := rep1) (objs := objs1) (x := x)
+        as (c' & p & off' & rep' & objs' & Hp & Hxp & Hr); [|reflexivity|assumption|].
+      + intros y Hy. apply Hsub. cbn [pre]. right. apply in_flat_map. exists (OBlock c1 n1 off1 rep1 objs1). auto.
+      + exists c', p, off', rep', objs'. split; [assumption|split; [assumption|]].
+        eapply reaches_step; [|exact Hr].
+        exists c, off, rep, objs, (OBlock c1 n1 off1 rep1 objs1). split; [assumption|split; [assumption|]]. left. eauto.
+  Qed.
+
+  Lemma nested_site a t : nested dev a t ->
+    exists r p, (exists c off rep objs cr ad rp,
+                   In (OBlock c p off rep objs) os /\ In (ORef cr r (OvBlock t ad rp)) objs) /\
+                reaches (instantiates os) a p.
+  Proof.
+    intros (c & off & rep & objs & Hs & (x & Hx & (cx & nx & ax & rx & ->))).
+    destruct (search_object_some _ _ _ Hs) as [Hin _]. fold os in Hin.
+    rewrite preorder_objects_pre in Hx.
+    destruct (descendant_parent (OBlock c a off rep objs)) with (c := c) (n := a) (off := off) (rep := rep) (objs := objs)
+                                                               (x := ORef cx nx (OvBlock t ax rx))
+      as (c' & p & off' & rep' & objs' & Hp & Hxp & Hr); [|reflexivity|assumption|].
+    - intros y Hy. unfold os. rewrite preorder_objects_pre. eapply flat_pre_trans; [|exact Hy].
+      rewrite <- preorder_objects_pre. exact Hin.
+    - exists nx, p. split; [|assumption]. exists c', off', rep', objs', cx, ax, rx. auto.
+  Qed.
+
+  Lemma nested_reaches a t : nested dev a t -> reaches (instantiates os) a t.
+  Proof.
+    intros H. destruct (nested_site a t H) as (r & p & (c & off & rep & objs & cr & ad & rp & Hp & Hr) & Hreach).
+    eapply reaches_snoc; [exact Hreach|].
+    exists c, off, rep, objs, (ORef cr r (OvBlock t ad rp)). split; [assumption|split; [assumption|]]. right. eauto.
+  Qed.
+
+  Lemma nested_plus_reaches a t : nested_plus dev a t -> reaches (instantiates os) a t.
+  Proof.
+    induction 1 as [a t H|a m t H _ IH]; [apply nested_reaches; assumption|].
+    eapply reaches_trans; [apply nested_reaches; exact H|exact IH].
+  Qed.
+
+  Theorem cyclic_is_recursive : cyclic dev -> recursive_block_ref dev.
+  Proof.
+    intros (a & Hc). unfold recursive_block_ref, recursive_in. fold os.
+    assert (exists m, nested dev a m /\ reaches (instantiates os) m a) as (m & Hn & Hr).
+    { inversion Hc as [x y H|x m y H Hp]; subst.
+      - exists a. split; [assumption|apply reaches_refl].
+      - exists m. split; [assumption|apply nested_plus_reaches; assumption]. }
+    destruct (nested_site a m Hn) as (r & p & Hsite & Hreach).
+    exists r, p, m. split; [exact Hsite|]. eapply reaches_trans; eassumption.
+  Qed.
+End CycleIsRecursive.
+
+(* ---------- no cycle => a rank (finite carrier: pigeonhole) ---------- *)
+
+Definition ref_target (o : object) : list string :=
+  match o with ORef _ _ (OvBlock t _ _) => [t] | _ => [] end.
+
+Definition nested_succs (dev : list object) (a : string) : list string :=
+  match search_object a dev with
+  | Some (OBlock _ _ _ _ objs) => flat_map ref_target (preorder_objects objs)
+  | _ => []
+  end.
+
+Lemma ref_target_spec o t : In t (ref_target o) <-> is_block_ref_to t o.
+Proof.
+  unfold is_block_ref_to. destruct o as [c n off rep objs|r|cm|b|c n ov]; cbn;
+    try (split; [intros []|intros (? & ? & ? & ? & E); discriminate]).
+  destruct ov as [t1 a rp|t1 acc a al rs rp|t1 a al rp]; cbn;
+    try (split; [intros []|intros (? & ? & ? & ? & E); discriminate]).
+  split; [intros [<-|[]]; eauto|intros (? & ? & ? & ? & E); inversion E; left; reflexivity].
+Qed.
+
+Lemma nested_succs_spec dev a t : In t (nested_succs dev a) <-> nested dev a t.
+Proof.
+  unfold nested_succs, nested, block_ref_in. split.
+  - destruct (search_object a dev) as [o|] eqn:Es; [|intros []].
+    destruct o as [c n off rep objs|r|cm|b|c n ov]; try (intros []).
+    destruct (search_object_some _ _ _ Es) as [_ Hn]. cbn in Hn. subst n.
+    intros H. apply in_flat_map in H. destruct H as (x & Hx & Ht). apply ref_target_spec in Ht.
+    exists c, off, rep, objs. split; [reflexivity|]. exists x. auto.
+  - intros (c & off & rep & objs & -> & (x & Hx & Ht)). apply in_flat_map. exists x. split; [assumption|].
+    apply ref_target_spec. assumption.
+Qed.
+
+Lemma list_max_ge l x : In x l -> (x <= list_max l)%nat.
+Proof.
+  intros H. assert (Forall (fun k => (k <= list_max l)%nat) l) as F by (apply list_max_le; lia).
+  rewrite Forall_forall in F. auto.
+Qed.
+
+Lemma list_max_in l : list_max l <> O -> In (list_max l) l.
+Proof.
+  induction l as [|x t IH]; cbn [list_max fold_right]; [congruence|]. fold (list_max t). intros H.
+  destruct (Nat.max_spec x (list_max t)) as [[Hlt E]|[Hle E]]; rewrite E.
+  - right. apply IH. lia.
+  - left. reflexivity.
+Qed.
+
+Section Rank.
+  Context (dev : list object).
+  Context (Hnocyc : ~ cyclic dev).
+  Let univ := map object_name (preorder_objects dev).
+
+  Fixpoint height (n : nat) (a : string) : nat :=
+    match n with
+    | O => O
+    | S m => list_max (map (fun t => S (height m t)) (nested_succs dev a))
+    end.
+
+  Lemma height_le : forall n a, (height n a <= n)%nat.
+  Proof.
+    induction n as [|m IH]; intros a; [reflexivity|]. cbn [height]. apply list_max_le.
+    apply Forall_forall. intros k Hk. apply in_map_iff in Hk. destruct Hk as (t & <- & _). specialize (IH t). lia.
+  Qed.
+
+  Lemma height_succ_ge : forall n a t, nested dev a t -> (S (height n t) <= height (S n) a)%nat.
+  Proof.
+    intros n a t H. cbn [height]. apply list_max_ge. apply in_map_iff. exists t. split; [reflexivity|].
+    apply nested_succs_spec. assumption.
+  Qed.
+
+  Lemma height_full_witness : forall m a, height (S m) a = S m -> exists t, nested dev a t /\ height m t = m.
+  Proof.
+    intros m a H. cbn [height] in H.
+    assert (In (S m) (map (fun t => S (height m t)) (nested_succs dev a))) as Hin.
+    { rewrite <- H. apply list_max_in. rewrite H. discriminate. }
+    apply in_map_iff in Hin. destruct Hin as (t & E & Ht). exists t. split; [apply nested_succs_spec; assumption|lia].
+  Qed.
+
+  Lemma nested_plus_snoc : forall x a t, nested_plus dev x a -> nested dev a t -> nested_plus dev x t.
+  Proof.
+    intros x a t H. induction H as [x a H|x m a H _ IH]; intros Ht.
+    - eapply np_step; [exact H|apply np_one; exact Ht].
+    - eapply np_step; [exact H|apply IH; exact Ht].
+  Qed.
+
+  Lemma nested_source_in_univ a t : nested dev a t -> In a univ.
+  Proof.
+    intros (c & off & rep & objs & Hs & _). destruct (search_object_some _ _ _ Hs) as [Hin Hn].
+    unfold univ. apply in_map_iff. exists (OBlock c a off rep objs). auto.
+  Qed.
+
+  (* a chain of n >= 1 steps below a, whose pairwise distinct ancestors all lie in univ: there is room for it *)
+  Lemma saturated_bound : forall n a anc,
+    (1 <= n)%nat -> height n a = n -> NoDup anc -> incl anc univ ->
+    (forall x, In x anc -> nested_plus dev x a) ->
+    (List.length anc + n <= List.length univ)%nat.
+  Proof.
+    induction n as [|m IH]; intros a anc Hn Hh Hnd Hincl Hanc; [lia|].
+    destruct (height_full_witness m a Hh) as (t & Hat & Ht).
+    assert (Ha : In a univ) by (eapply nested_source_in_univ; exact Hat).
+    assert (Hna : ~ In a anc).
+    { intros Hin. apply Hnocyc. exists a. apply Hanc. assumption. }
+    assert (Hnd' : NoDup (a :: anc)) by (constructor; assumption).
+    assert (Hincl' : incl (a :: anc) univ) by (intros x [<-|Hx]; auto).
+    destruct m as [|m'].
+    - pose proof (NoDup_incl_length Hnd' Hincl') as L. cbn [List.length] in L. lia.
+    - assert (List.length (a :: anc) + S m' <= List.length univ)%nat as L.
+      { apply (IH t (a :: anc)); try assumption; [lia|].
+        intros x [<-|Hx]; [apply np_one; assumption|]. eapply nested_plus_snoc; [apply Hanc; assumption|assumption]. }
+      cbn [List.length] in L. lia.
+  Qed.
+
+  Lemma height_stable : forall n a, (height n a < n)%nat -> height (S n) a = height n a.
+  Proof.
+    induction n as [|m IH]; intros a H; [lia|].
+    cbn [height] in *. f_equal. apply map_ext_in. intros t Ht. f_equal.
+    change (height (S m) t = height m t). apply IH.
+    assert (S (height m t) <= list_max (map (fun t0 => S (height m t0)) (nested_succs dev a)))%nat.
+    { apply list_max_ge. apply in_map_iff. exists t. auto. }
+    lia.
+  Qed.
+
+  Theorem no_cycle_rank : acyclic dev.
+  Proof.
+    set (N := List.length univ). exists (height (S N)). intros a t Hat.
+    assert (Hlt : (height (S N) a < S N)%nat).
+    { pose proof (height_le (S N) a) as Hle.
+      destruct (Nat.eq_dec (height (S N) a) (S N)) as [E|]; [|lia].
+      pose proof (saturated_bound (S N) a [] ltac:(lia) E (NoDup_nil _) (incl_nil_l _) ltac:(intros x []) ) as L.
+      cbn [List.length] in L. fold N in L. lia. }
+    pose proof (height_succ_ge (S N) a t Hat) as Hge. rewrite (height_stable (S N) a Hlt) in Hge. lia.
+  Qed.
+End Rank.
+
+Theorem acyclic_iff_no_cycle : forall dev, acyclic dev <-> ~ cyclic dev.
+Proof.
+  intros dev. split; [intros H Hc; exact (cyclic_not_acyclic dev Hc H)|apply no_cycle_rank].
+Qed.
+
+(* a definition without recursive block ref is acyclic *)
+Theorem not_recursive_acyclic : forall dev, ~ recursive_block_ref dev -> acyclic dev.
+Proof. intros dev H. apply no_cycle_rank. intros Hc. apply H. apply cyclic_is_recursive. exact Hc. Qed.
+
+(* ---------- the same on the tree the user wrote ---------- *)
+
+Section NormRec.
+  Context (bs : list boundary).
+  Notation N := (norm_object bs).
+  Notation P := (to_pascal bs).
+
+  Lemma norm_block_inv o c p off rep objs' : N o = OBlock c p off rep objs' ->
+    exists n objs, o = OBlock c n off rep objs /\ P n = p /\ objs' = map N objs.
+  Proof. destruct o; cbn; intros E; try discriminate. inversion E; subst. eauto. Qed.
+
+  Lemma norm_block_ref_inv o c r q a rp : N o = ORef c r (OvBlock q a rp) ->
+    exists r0 t, o = ORef c r0 (OvBlock t a rp) /\ P r0 = r /\ P t = q.
+  Proof.
+    destruct o as [| | | |c0 n0 ov]; cbn; intros E; try discriminate.
+    destruct ov; cbn in E; inversion E; subst. eauto.
+  Qed.
+
+  Lemma inst_norm os p q : instantiates (map N os) p q <-> spec_instantiates bs os p q.
+  Proof.
+    unfold instantiates, spec_instantiates. split.
+    - intros (c & off & rep & objs' & ch' & Hb & Hch & Hq).
+      apply in_map_iff in Hb. destruct Hb as (o & Eo & Ho).
+      destruct (norm_block_inv _ _ _ _ _ _ Eo) as (n & objs & -> & Hp & ->).
+      apply in_map_iff in Hch. destruct Hch as (ch & Ech & Hch).
+      exists c, n, off, rep, objs, ch. split; [assumption|split; [assumption|split; [assumption|]]].
+      destruct Hq as [(c' & off' & rep' & objs1 & E)|(c' & r & a & rp & E)]; rewrite E in Ech.
+      + destruct (norm_block_inv _ _ _ _ _ _ Ech) as (n' & objs0 & -> & Hq & _). left. exists c', n', off', rep', objs0. auto.
+      + destruct (norm_block_ref_inv _ _ _ _ _ _ Ech) as (r0 & t & -> & _ & Hq). right. exists c', r0, t, a, rp. auto.
+    - intros (c & n & off & rep & objs & ch & Hb & Hp & Hch & Hq).
+      exists c, off, rep, (map N objs), (N ch). split; [|split; [apply in_map; assumption|]].
+      + apply in_map_iff. exists (OBlock c n off rep objs). split; [cbn; rewrite Hp; reflexivity|assumption].
+      + destruct Hq as [(c' & n' & off' & rep' & objs1 & -> & Hq)|(c' & r & t & a & rp & -> & Hq)]; cbn; rewrite Hq.
+        * left. eauto.
+        * right. eauto.
+  Qed.
+
+  Lemma recursive_norm os : recursive_in (map N os) <-> spec_recursive_ref bs os.
+  Proof.
+    unfold recursive_in, recursive_site, spec_recursive_ref. split.
+    - intros (r & p & t & (c & off & rep & objs' & cr & a & rp & Hb & Hr) & Hreach).
+      apply in_map_iff in Hb. destruct Hb as (o & Eo & Ho).
+      destruct (norm_block_inv _ _ _ _ _ _ Eo) as (n & objs & -> & Hp & ->).
+      apply in_map_iff in Hr. destruct Hr as (ch & Ech & Hch).
+      destruct (norm_block_ref_inv _ _ _ _ _ _ Ech) as (r0 & t0 & -> & _ & Ht).
+      exists c, n, off, rep, objs, cr, r0, t0, a, rp. split; [assumption|split; [assumption|]].
+      rewrite Ht, Hp. eapply reaches_ext; [|exact Hreach]. intros x y. apply inst_norm.
+    - intros (c & n & off & rep & objs & cr & r & t & a & rp & Hb & Hr & Hreach).
+      exists (P r), (P n), (P t). split.
+      + exists c, off, rep, (map N objs), cr, a, rp. split.
+        * apply in_map_iff. exists (OBlock c n off rep objs). auto.
+        * apply in_map_iff. exists (ORef cr r (OvBlock t a rp)). auto.
+      + eapply reaches_ext; [|exact Hreach]. intros x y. apply inst_norm.
+  Qed.
+End NormRec.
+
+Lemma spec_recursive_norm d :
+  C14_spec_recursive_ref d <-> recursive_block_ref (d_objects (names_normalized d)).
+Proof.
+  unfold C14_spec_recursive_ref, recursive_block_ref, names_normalized. cbn [d_objects].
+  rewrite preorder_norm. symmetry. apply recursive_norm.
+Qed.
+
+(* ================================================================== *)
+(* C14_accept_iff (current), acyclicity of accepted definitions         *)
+(* ================================================================== *)
+
+Theorem accept_iff : forall d, cfg_free d -> (name_ref_check d = false <-> C14_spec_reject d).
+Proof.
+  intros d Hf. unfold C14_spec_reject. rewrite <- (accept_iff_before_d11_repair d Hf), spec_recursive_norm.
+  rewrite <- no_recursive_false. unfold name_ref_check, name_ref_check_before_d11_repair.
+  destruct (names_unique (names_normalized d)); [split; auto|].
+  destruct (refs_validated_ok (names_normalized d)); cbn [andb].
+  - split; [auto|intros [H|H]; [discriminate|assumption]].
+  - split; auto.
+Qed.
+
+(* an accepted definition has no block ref inside its own target: the nesting relation has a rank *)
+Theorem accepted_is_acyclic : forall d, name_ref_check d = true -> acyclic (d_objects (names_normalized d)).
+Proof.
+  intros d H. apply name_ref_check_true in H. destruct H as (_ & _ & H).
+  apply not_recursive_acyclic. apply no_recursive_true. exact H.
+Qed.
+
+(* hence the expansion of its block refs (lower: the unrepaired lowering, the by-name expansion of the LIR pass)
+   terminates *)
+Theorem accepted_expansion_terminates : forall d, cfg_free d -> name_ref_check d = true ->
+  lowering_terminates (d_objects (names_normalized d)).
+Proof.
+  intros d Hf H. apply (accepted_lowering_iff_acyclic d Hf H). apply accepted_is_acyclic. exact H.
 Qed.
